@@ -527,6 +527,9 @@ pub uninterp spec fn json_enc<T>(t: T) -> Seq<u8>;
 pub open spec fn recoverable(w: World) -> bool {
     if w.fs.dom().contains(w.ptr) { Some(w.fs[w.ptr]) == w.last || w.fs[w.ptr] == w.ptr_new } else { w.last is None }
 }
+impl path::Path {
+    #[verifier::external_body] pub fn with_extension(&self, ext: &str) -> (r: path::PathBuf) ensures r@ == path_with_ext(self@, ext@), r@ != self@ { unimplemented!() }
+}
 impl path::PathBuf {
     #[verifier::external_body] pub fn with_extension(&self, ext: &str) -> (r: path::PathBuf) ensures r@ == path_with_ext(self@, ext@), r@ != self@ { unimplemented!() }
 }
@@ -592,13 +595,20 @@ pub mod fs {
             r is Err ==> final(w).fs == old(w).fs,
             (r is Err && final(w).io_faults == old(w).io_faults) ==> forall|q: Seq<char>| #![trigger under(p.pview(), q)] under(p.pview(), q) ==> !old(w).fs.dom().contains(q),
     { unimplemented!() }
+    // remove_dir: removes an EMPTY directory only - succeeds only when nothing is inside; the file map never changes
+    #[verifier::external_body] pub fn remove_dir<P: PathLike + ?Sized>(p: &P, Tracked(w): Tracked<&mut World>) -> (r: Result<(), std::io::Error>)
+        ensures
+            final(w).ptr == old(w).ptr, final(w).last == old(w).last, final(w).ptr_new == old(w).ptr_new, final(w).io_faults >= old(w).io_faults,
+            final(w).fs == old(w).fs,
+            r is Ok ==> final(w).io_faults == old(w).io_faults && forall|q: Seq<char>| #![trigger under(p.pview(), q)] under(p.pview(), q) ==> !old(w).fs.dom().contains(q),
+    { unimplemented!() }
     // create_dir_all: directories are not files; the file map is unchanged
     #[verifier::external_body] pub fn create_dir_all<P: PathLike + ?Sized>(p: &P, Tracked(w): Tracked<&mut World>) -> (r: Result<(), std::io::Error>)
         ensures final(w).fs == old(w).fs, final(w).ptr == old(w).ptr, final(w).last == old(w).last, final(w).ptr_new == old(w).ptr_new, final(w).io_faults >= old(w).io_faults,
             r is Err ==> final(w).io_faults > old(w).io_faults,
     { unimplemented!() }
     // rename(2): atomic replacement
-    #[verifier::external_body] pub fn rename<P: PathLike, Q: PathLike>(from: &P, to: &Q, Tracked(w): Tracked<&mut World>) -> (r: Result<(), std::io::Error>)
+    #[verifier::external_body] pub fn rename<P: PathLike, Q: PathLike>(from: P, to: Q, Tracked(w): Tracked<&mut World>) -> (r: Result<(), std::io::Error>)
         requires recoverable(*old(w)),
         ensures
             final(w).ptr == old(w).ptr, final(w).last == old(w).last, final(w).ptr_new == old(w).ptr_new,
